@@ -139,16 +139,18 @@ def replay(pid, unit, cex, path):
             y = tuple(cex["y"])
             present, full = y in X, len(X) == NQ
             exp_res = "ok_false" if present else ("err" if full else "ok_true")
-            X2 = X | {y} if exp_res == "ok_true" else X
+            X2 = X if nat["result"] == "err" else X | {y}   # expected state relative to the ACTUAL outcome, as in the encoding
             if (nat["result"] == "err") != (exp_res == "err"): bad.append("insert_result_kind")
             if nat["result"] != exp_res and nat["result"] != "err" and exp_res != "err": bad.append("insert_true_iff_new_class")
         else:
             Y = set(tuple(e) for e in cex["other"])
             fits = len(X | Y) <= NQ
-            X2 = (X | Y) if fits else X
+            X2 = (X | Y) if nat["result"] == "ok" else X
             if (nat["result"] == "ok") != fits: bad.append("union_ok_iff_fits")
             if not nat.get("other_unchanged", True): bad.append("union_other_unchanged")
-        if nat["len"] != len(X2): bad.append("len_is_number_of_classes" if cex["op"] == "insert" else "union_len")
+        is_err = nat["result"] == "err"
+        if nat["len"] != len(X2):
+            bad.append(("insert_err_len_unchanged" if is_err else "len_is_number_of_classes") if cex["op"] == "insert" else ("union_err_len_unchanged" if is_err else "union_ok_len"))
         e = enc_py(X2, NQ, NR)
         ok = True
         for t in range(NQ):
@@ -156,7 +158,7 @@ def replay(pid, unit, cex, path):
             if [bool(s_[0]), bool(s_[1]), bool(s_[2])] != e[t][:3]: ok = False
             if any(e[t][:3]) and s_[3] != e[t][3]: ok = False
         if not ok:
-            bad.append("post_state_is_canonical_encoding" if cex["op"] == "insert" else "union_state_is_encoding_of_union_or_unchanged")
+            bad.append(("insert_err_state_unchanged" if is_err else "post_state_is_canonical_encoding") if cex["op"] == "insert" else ("union_err_state_unchanged" if is_err else "union_ok_state_is_encoding_of_union"))
         return bad, path, nat
     return [], path, {"error": "no native replay for model %s" % model}
 
